@@ -43,9 +43,23 @@ def _hash_tree(paths):
     return h.hexdigest()[:20]
 
 
-def build(scratch):
+def build_race(scratch, d):
+    """A second driver binary with the race detector (C09 concurrent clause)."""
+    binp = scratch.path("bin-drv-race")
+    p = V.run(["go", "build", "-race", "-tags", "verif", "-o", binp, "./cmd/drv"], cwd=d, timeout=1800, check=False)
+    if p.returncode != 0:
+        raise V.Inconclusive("race driver build failed:\n" + (p.stdout or "")[-3000:])
+    return binp
+
+
+def build(scratch, seed=None):
     """Returns (dir, corpus entries with 'compiled'/'compile_err', path of the driver binary)."""
-    key = _hash_tree([os.path.join(V.REPO, "cmd", "protoc-gen-fastmarshal"), os.path.join(V.HARNESS, "corpus"),
+    try:
+        rseed = int(os.environ.get("VERIF_SEED") or "1") if seed is None else seed
+    except ValueError:
+        rseed = 1
+    nrandom = 6
+    key = "s%d-" % rseed + _hash_tree([os.path.join(V.REPO, "cmd", "protoc-gen-fastmarshal"), os.path.join(V.HARNESS, "corpus"),
                       os.path.join(V.HARNESS, "cmd", "corpusgen"), os.path.join(V.REPO, "go.mod")]) + "-" + hashlib.sha256(SETS.encode()).hexdigest()[:6]
     d = os.path.join(CACHE, key)
     if not os.path.exists(os.path.join(d, "corpus.json")):
@@ -61,7 +75,7 @@ def build(scratch):
         if p.returncode != 0:
             raise V.Inconclusive("protoc-gen-fastmarshal does not build:\n" + p.stdout[-2000:])
         gen = V.build_harness(scratch, "corpusgen")
-        V.run([gen, "-out", tmp, "-plugins", plug, "-sets", SETS], timeout=900)
+        V.run([gen, "-out", tmp, "-plugins", plug, "-sets", SETS, "-rseed", str(rseed), "-nrandom", str(nrandom)], timeout=900)
         with open(os.path.join(tmp, "go.mod"), "w") as f:
             f.write(GOMOD % (V.REPO, V.HARNESS))
         shutil.copy(os.path.join(V.HARNESS, "go.sum"), os.path.join(tmp, "go.sum"))
